@@ -903,7 +903,10 @@ def validate_current_file(files_seen: Set[Union[str, Path]]) -> None:
 
 def lex_parse_curr_file(lexer: FJLexer, parser: FJParser) -> None:
     global curr_text, curr_namespace
-    curr_text = curr_file.open('r', encoding='utf-8').read()
+    try:
+        curr_text = curr_file.open('r', encoding='utf-8').read()
+    except UnicodeDecodeError as e:
+        raise FlipJumpParsingException(f"Can't read the .fj file {curr_file}: it isn't a valid utf-8 text ({e}).") from e
     curr_namespace = []
 
     lex_res = lexer.tokenize(curr_text)
